@@ -450,30 +450,34 @@ func diffAny(path string, w, g interface{}) string {
 	return fmt.Sprintf("%s: want %s, got %s", path, short(w), short(g))
 }
 
+type dangling struct {
+	Where, Name string
+}
+
 // danglingRefs lists named type references that do not resolve to a listed type.
-func (x *IntroD) danglingRefs() []string {
+func (x *IntroD) danglingRefs() []dangling {
 	listed := map[string]bool{}
 	for _, t := range x.Types {
 		listed[t.Name] = true
 	}
-	var out []string
+	var out []dangling
 	var chk func(where string, r *RefD)
 	chk = func(where string, r *RefD) {
 		for r != nil {
 			if r.Name != nil && !listed[*r.Name] {
-				out = append(out, where+" -> "+*r.Name)
+				out = append(out, dangling{where, *r.Name})
 			}
 			r = r.OfType
 		}
 	}
 	if !listed[x.QueryType.Name] {
-		out = append(out, "queryType -> "+x.QueryType.Name)
+		out = append(out, dangling{"queryType", x.QueryType.Name})
 	}
 	if x.MutationType != nil && !listed[x.MutationType.Name] {
-		out = append(out, "mutationType -> "+x.MutationType.Name)
+		out = append(out, dangling{"mutationType", x.MutationType.Name})
 	}
 	if x.SubscriptionType != nil && !listed[x.SubscriptionType.Name] {
-		out = append(out, "subscriptionType -> "+x.SubscriptionType.Name)
+		out = append(out, dangling{"subscriptionType", x.SubscriptionType.Name})
 	}
 	for i := range x.Types {
 		t := &x.Types[i]
